@@ -23,7 +23,7 @@ ASSUMPTIONS = [
     'the constant allows the inference sample (100 rows for iterables, 1000 rows for load() of a file) plus 64 rows of fixed batching',
 ]
 BUDGET = {'quick': dict(examples=640, shards=8, seconds=80),
-          'thorough': dict(examples=2400, shards=16, seconds=1200)}
+          'thorough': dict(examples=6000, shards=16, seconds=1200)}
 
 KINDS = ['add_field', 'add_computed', 'delete_fields', 'select_fields', 'rename_fields', 'find_replace', 'set_type', 'validate',
          'filter_rows', 'unpivot', 'concatenate', 'printer', 'dump_to_path', 'dump_to_zip', 'stream_file', 'checkpoint',
